@@ -801,7 +801,8 @@ def systematic_world(rng, route, share):
 
 # ----------------------------------------------------------------------------- checking one history
 def md_all_empty(s):
-    return any(s[k] is not None and len(s[k]) > 0 and all(not e for e in s[k]) for k in ("omd", "smd"))
+    """some axis carries a metadata tuple without any information: only empty entries, or no entry at all"""
+    return any(s[k] is not None and all(not e for e in s[k]) for k in ("omd", "smd"))
 
 
 def check(ctx, W, case, tags=()):
@@ -845,7 +846,7 @@ def check(ctx, W, case, tags=()):
     req = {"calls": [{k: v for k, v in c.items() if k != "error"} for c in calls]}
     r = ctx.driver.ask(req)
     if not r["model_holds"]:
-        ctx.diverge(case, "theorem model_holds_partial contradicted by the driver", tags)
+        ctx.diverge(case, "theorem model_holds contradicted by the driver", tags)
     if not r["holds"]:
         k, name, clause = r["clause"].split(":", 2)
         c = calls[int(k)]
@@ -853,6 +854,12 @@ def check(ctx, W, case, tags=()):
         t = list(tags) + ["op=" + name]
         if c["inplace"] and c["recv"] < len(before) and md_all_empty(before[c["recv"]]):
             t.append("receiver-has-all-empty-metadata-tuple")
+            rb, rr, rf = before[c["recv"]], (c["result_contents"] or [None])[0], c["ref"]
+            # the two variants differ in nothing but "tuple of empty entries" versus None
+            if rr is not None and rf is not None and all(
+                    rr[f] == rf[f] or (f in ("omd", "smd") and rf[f] is None and all(not e for e in rr[f]))
+                    for f in ("obs", "samp", "rows", "omd", "smd", "type")):
+                t.append("differs-only-by-empty-tuple-vs-None")
         if c.get("error"):
             t.append("raised=" + c["error"])
         ctx.fail(case, clause, t, detail={"call": int(k), "recipe": W.recipe, "call_record": c,
